@@ -1,8 +1,10 @@
 mod craft;
 mod fixtures;
 mod libapi;
+mod record;
 mod refimpl;
 mod replay;
+mod replay_codec;
 
 use refimpl::Ref;
 
@@ -55,6 +57,58 @@ fn main() {
             });
             std::fs::write(&args[3], serde_json::to_string_pretty(&out).unwrap()).unwrap();
             println!("replayed cases={} runs={} steps={} flips={} mismatches={} drift={}", rep.cases, rep.concrete_runs, rep.steps, rep.flips, rep.mismatches.len(), rep.drift.len());
+            std::process::exit(0);
+        }
+        "replay-codec" => {
+            // zkv replay-codec <cases.ndjson> <report.json> [--flip-stride N]
+            let r = Ref::load(&layouts);
+            libapi::install_quiet_panic_hook();
+            let text = std::fs::read_to_string(&args[2]).expect("cases file");
+            let cases: Vec<serde_json::Value> = text.lines().filter(|l| !l.trim().is_empty()).map(|l| serde_json::from_str(l).expect("case line")).collect();
+            let seed: u64 = std::env::var("VERIF_SEED").ok().and_then(|s| s.parse().ok()).unwrap_or(1);
+            let mut flip_stride = 0usize;
+            let mut i = 4;
+            while i < args.len() {
+                match args[i].as_str() {
+                    "--flip-stride" => { flip_stride = args[i + 1].parse().unwrap(); i += 2; }
+                    _ => usage(),
+                }
+            }
+            let mut rep = replay_codec::run(&r, &cases, seed, flip_stride);
+            replay_codec::roundtrips(seed, &mut rep);
+            let out = serde_json::json!({"cases": rep.cases, "checks": rep.checks, "mismatches": rep.mismatches, "samples": rep.samples, "skipped": rep.skipped});
+            std::fs::write(&args[3], serde_json::to_string_pretty(&out).unwrap()).unwrap();
+            println!("replayed codec cases={} mismatches={}", rep.cases, rep.mismatches.len());
+            std::process::exit(0);
+        }
+        "record" => {
+            // zkv record <trace.ndjson> --runs N --events N --max-l N
+            let r = Ref::load(&layouts);
+            libapi::install_quiet_panic_hook();
+            let seed: u64 = std::env::var("VERIF_SEED").ok().and_then(|s| s.parse().ok()).unwrap_or(1);
+            let (mut runs, mut events, mut max_l, mut salt) = (2usize, 300usize, 300usize, 0u64);
+            let mut family = "all".to_string();
+            let mut i = 3;
+            while i < args.len() {
+                match args[i].as_str() {
+                    "--runs" => { runs = args[i + 1].parse().unwrap(); i += 2; }
+                    "--events" => { events = args[i + 1].parse().unwrap(); i += 2; }
+                    "--max-l" => { max_l = args[i + 1].parse().unwrap(); i += 2; }
+                    "--salt" => { salt = args[i + 1].parse().unwrap(); i += 2; }
+                    "--family" => { family = args[i + 1].clone(); i += 2; }
+                    _ => usage(),
+                }
+            }
+            let mut d = record::Driver::new(&r, seed.wrapping_mul(1000003).wrapping_add(salt), max_l);
+            d.family = family;
+            d.run(runs, events);
+            let mut out = String::new();
+            for e in &d.events {
+                out.push_str(&serde_json::to_string(e).unwrap());
+                out.push('\n');
+            }
+            std::fs::write(&args[2], out).unwrap();
+            println!("recorded events={}", d.events.len());
             std::process::exit(0);
         }
         _ => usage(),
